@@ -257,6 +257,18 @@ PROPS = {
                 technique="deterministic simulation: seeded chunkings of the compressed stream under a simulated clock; conservation oracle against the actor's payload + online bound invariant",
                 design_ref="DESIGN.md section 7 C07",
                 rule="9 payload kinds (empty, 1 B, text, random, 8191/8192/8193/16384, 20-70 KB low entropy, up to 200 KB highly compressible, 9-30 KB incompressible) x 11 codings x {CL, chunked, close} x {single-cut sweep over the first/last 40 bytes of the compressed body, 1-5 byte chunks, tiny first chunks then large, all general strategies}; every 4th run is a chaos plan (captures incl. compressed ones, mutations, small bomb limits, clock faults) with only the bound invariants. Non-trivial/distinct as for C01."),
+    "C14": dict(flavor="san", level="exploration", registered=False,
+                claim="Ground truth + differential: multipart bodies wrapped by the actor around parts it chose are parsed through the public streaming API under EVERY single cut (bodies <= 1 KiB; 64 sampled cuts above) plus a seeded multi-cut schedule, and through the connection parser under random wire schedules; parts, file bytes, flags and parameters must equal the encoded parts and be identical for every chunking.",
+                note="Boundary delimiters never occur inside generated part content (near-misses do); with LF-only line ends CR is not generated inside content. Simulated file layer for extracted files (no faults in this scenario).",
+                technique="deterministic simulation: exhaustive single-cut sweep + seeded multi-cut schedules of the body stream, through the streaming API and through the simulated connection; ground-truth and differential oracles",
+                design_ref="DESIGN.md section 7 C14",
+                rule="boundaries (1-70 chars, '--', 'a', 'boundary', self-overlapping), 0-8 text/file parts, names/filenames with escaped quotes and backslashes, contents built from CR/LF/dash near-boundary fragments and random bytes, optional preamble/epilogue/part Content-Type, CRLF or LF line ends; 3/4 direct API (whole + every single cut + one multi-cut schedule per body), 1/4 through the connection parser (CL or chunked, reference vs variant chunking). evaluations counts every parse; distinct = distinct result signature."),
+    "C15": dict(flavor="san", level="exploration", registered=False,
+                claim="Reference + differential: each seeded string is parsed whole through the public streaming API and compared with an independent implementation of the statement's rule (split on '&', first '=', drop only a final empty piece, decode per configuration), then under EVERY single cut (strings <= 80 bytes; 24 sampled cuts above) and one seeded multi-cut schedule, which must give the identical result; 1/5 of the runs go through the connection parser as a POST body.",
+                note="The reference decoder models percent/plus decoding with the three invalid-encoding handlings and the two NUL-termination switches; with %u decoding enabled only the chunking-invariance half is asserted.",
+                technique="deterministic simulation: exhaustive single-cut sweep + seeded multi-cut schedules of the parameter stream; executable reference model as oracle",
+                design_ref="DESIGN.md section 7 C15",
+                rule="strings over {a = & % + 1 NUL b f u G SP 0} of length 0-8 and 0-64, random byte strings of 65-2000 bytes with separators mixed in; decoder configurations: invalid handling x3, plusspace x2, NUL-terminates switches, %u decoding. evaluations counts every parse; distinct = distinct result signature."),
     "C03": dict(flavor="san", level="exploration",
                 claim="Differential simulation: the same seeded well-formed history is delivered under two segmentations of the simulated wire and everything the statement lists is compared; exhaustive single-cut sweeps for short histories are visited by consecutive run indices, the rest is seeded sampling.",
                 note="Domain is the CRLF grammar of DESIGN.md section 4 (bare-LF traffic is exercised only under the all-input properties); log messages, connection flags and return codes are not compared.",
